@@ -964,8 +964,10 @@ class Gen(object):
         c = r.random()
         if c < 0.04 and items:
             items = items[:-1]
-        elif c < 0.07:
-            items = items + [V(T(1))]
+        elif c < 0.14:
+            # EXTRA trailing arguments beyond the published arity (the handler is called with the peer's tuple splatted): TypeError replies
+            items = items + [r.choice([V(T(x)) for x in (1, True, 0, False, None, "x", "", (), (1,), 1.5, b"\x01", -1)] + [self.ref()])
+                             for _ in range(r.choice([1, 1, 1, 2, 3]))]
         if r.random() < 0.03:
             args = r.choice([V(T(5)), V(T("ab")), self.ref(), T(5), T(()), T((1, 2, 3)), T((9, ())), T(("a", "b")), T(b"\x01\x05"), T((2, 5)), T((2, ((1,),))),
                              T((2, "ab")), T((2, b"ab")), T((True, 7)), T((1.0, 7)), T((3,))])
@@ -1346,6 +1348,16 @@ def oracle(ctx, sess, case, k, msg, obs, noise):
             bad("request-answered-twice:%s" % hname, "more than one answer", observed=[repr(a[:2]) for a in answers], expected="at most one")
     elif not is_request and answers and not isinstance(obs["real"], frozenset) and not msg.get("interleave"):
         bad("non-request-answered", "something that is not a request was answered", observed=[repr(a[:2]) for a in answers], expected="ignored or connection ends")
+    if is_request and obs["ended"] is not None and not msg.get("interleave"):
+        e = obs["ended"]
+        # what may leave serve() while a peer's REQUEST is handled: the transport's EOFError (incl. the peer's own CLOSE), or a
+        # KeyboardInterrupt that local code itself raised (propagate_KeyboardInterrupt_locally); never an exception object that
+        # was rebuilt from a record the peer sent, never anything else
+        forged = hasattr(e, "_remote_tb") or (isinstance(e, (KeyboardInterrupt, SystemExit)) and type(e) not in (KeyboardInterrupt, SystemExit))
+        if forged or not (isinstance(e, EOFError) or type(e) is KeyboardInterrupt):
+            bad("exception-escapes-serve:%s" % ("peer-forged-" + type(e).__name__ if forged else type(e).__name__),
+                "an exception left Connection.serve() while a peer request was handled (the hosting thread is taken down) instead of being answered",
+                observed=repr(e)[:200], expected="MSG_EXCEPTION with the request's sequence number")
     if obs["ended"] is not None and not obs["closed"]:
         bad("ended-but-open", "an exception left serve() and Connection.serve_all left the connection open", observed=repr(obs["ended"]), expected="closed")
     if obs["ended"] is not None:
@@ -1647,6 +1659,30 @@ def special_cases(r):
     nested2 = ["tuple", [T(1), T(78), ["tuple", [T(R.H["GETATTR"]), TT([L(["id", 1, "exact"]), V(T("exposed_get"))])]]]]
     msgs.append(req("PING", [RR(T(("foo.Baz", 1, 424243)))], answers=[["silent"]], interleave=nested2))
     out.append({"id": "special-interleave", "world": descs, "msgs": msgs})
+    # every handler with one extra trailing argument (truthy and falsy) beyond its published arity, denied names where a name goes
+    base = {"PING": [V(T(1))], "CLOSE": None, "GETROOT": [], "GETATTR": [root, V(T("secret"))], "DELATTR": [root, V(T("secret"))],
+            "SETATTR": [root, V(T("secret")), V(T(1))], "CALL": [root, V(T(())), V(T(()))], "CALLATTR": [root, V(T("_priv")), V(T(())), V(T(()))],
+            "REPR": [root], "STR": [root], "CMP": [root, root, V(T("__dict__"))], "HASH": [root], "DIR": [root], "PICKLE": [root, V(T(2))],
+            "DEL": None, "INSPECT": [V(["id", 0, "exact"])], "BUFFITER": [root, V(T(1))],
+            "OLDSLICING": [root, V(T("secret")), V(T("_priv")), V(T(0)), V(T(None)), V(T(()))], "CTXEXIT": [root, V(T(None))],
+            "INSTANCECHECK": [root, V(T(("builtins.int", 1, 2)))]}
+    msgs = [req("GETROOT", [])]
+    for h, items in base.items():
+        if items is None:
+            continue
+        for extra in (True, 1, "x", False, None, 0):
+            msgs.append(req(h, items + [V(T(extra))]))
+        msgs.append(req(h, items + [V(T(1)), V(T(1))]))
+    out.append({"id": "special-extra-args", "world": descs, "msgs": msgs})
+    # exception records forged by the peer that name KeyboardInterrupt / SystemExit: as the CTXEXIT argument and as the answer to the
+    # server's nested INSPECT inside a request -- they are answered like any other exception, they never leave serve()
+    msgs = [req("GETROOT", [])]
+    for cls in ("KeyboardInterrupt", "SystemExit", "GeneratorExit", "BaseException"):
+        rec = T((("builtins", cls), (), (), "tb"))
+        msgs.append(req("CTXEXIT", [root, V(rec)]))
+        msgs.append(req("PING", [RR(T(("foo.Forged" + cls, 1, 5)))], answers=[["exc", rec]]))
+        msgs.append(req("GETATTR", [RR(T(("foo.Forged2" + cls, 1, 6))), V(T("exposed_get"))], answers=[["exc", rec]]))
+    out.append({"id": "special-forged-interrupt", "world": descs, "msgs": msgs})
     # the per-connection cache of peer classes: once INSPECT was answered for an id pack with instance id 0, INSTANCECHECK against that
     # name reaches the service's __instancecheck__, and a second proxy of the same class needs no INSPECT
     cidx = [i for i, d in enumerate(descs[:-1]) if d["cls"]][0]
